@@ -22,7 +22,7 @@ func init() {
 		ID:      "C19",
 		Batches: func(tier string) int { return map[string]int{"quick": 16, "thorough": 48}[tier] },
 		Run:     run,
-		Rule: "cases: pairs (tree, perturbed copy): every single-point perturbation (change scalar, change kind, delete member, add member, nil a member, truncate / extend array) of each generated tree, 2-5 point perturbations, unrelated pairs, identical pairs and numeric-width variants; " +
+		Rule: "cases: pairs (tree, perturbed copy): every single-point perturbation (change scalar, change kind, delete member, add member, nil a member, truncate / extend array) of each generated tree, 2-5 point perturbations, unrelated pairs, identical pairs and numeric-width variants (every signed and unsigned width, uint64 leaves above MaxInt64 equal or differing by one); " +
 			"ignore sets: none, a path at / above / below / beside a difference, wildcard elements, several paths through different indexes of one array, several paths of any kind preceded by decoy paths beside them; simple and gen pairs; fingerprints for Match: sub-trees of the target, perturbed sub-trees, explicit nils. " +
 			"Checked: Diff empty iff the reference diff (minus ignored locations) is empty, every returned path is a genuine difference location (soundness), every differing location is covered by a returned path or an ignore path (completeness), Compare nil iff Diff empty and among Diff's paths, Match equals the reference. " +
 			"non-trivial: the pair differs in at least one location or carries an ignore path; distinct by digest of (a, b, ignores)",
